@@ -2,6 +2,7 @@ package plush
 
 import (
 	"fmt"
+	"math"
 	"reflect"
 )
 
@@ -11,28 +12,40 @@ type Iterator interface {
 }
 
 type ranger struct {
-	pos int
-	end int
+	pos  int
+	end  int
+	done bool
 }
 
 func (r *ranger) Next() interface{} {
-	if r.pos < r.end {
-		r.pos++
-		return r.pos
+	if r.done || r.pos > r.end {
+		return nil
 	}
-	return nil
+	v := r.pos
+	if r.pos == r.end {
+		r.done = true
+	} else {
+		r.pos++
+	}
+	return v
 }
 
 func rangeHelper(a, b int) Iterator {
-	return &ranger{pos: a - 1, end: b}
+	return &ranger{pos: a, end: b}
 }
 
 func betweenHelper(a, b int) Iterator {
-	return &ranger{pos: a, end: b - 1}
+	if a == math.MaxInt || b == math.MinInt {
+		return &ranger{done: true}
+	}
+	return &ranger{pos: a + 1, end: b - 1}
 }
 
 func untilHelper(a int) Iterator {
-	return &ranger{pos: -1, end: a - 1}
+	if a == math.MinInt {
+		return &ranger{done: true}
+	}
+	return &ranger{pos: 0, end: a - 1}
 }
 
 func GroupByHelper(size int, underlying interface{}) (*groupBy, error) {
